@@ -40,6 +40,14 @@ pub(crate) fn repeat(pc: usize, stack: &mut Stack, repeat: &mut Repeat) -> OpRes
     Ok(())
 }
 
+#[cfg(essential_base_verif)]
+impl Repeat {
+    /// The number of active repeat loops.
+    pub fn depth(&self) -> usize {
+        self.stack.len()
+    }
+}
+
 impl Repeat {
     /// Create a new repeat stack.
     pub fn new() -> Self {
